@@ -554,7 +554,9 @@ class RestartSim(pair.PairSim):
                     self.probe("restart_with_frames_written_into_the_abandoned_connection")
                     break
                 for (ev, cid, d, fr) in self.wire_frames(label):
-                    if ev > ev0 and d.get("35") == "2":
+                    # judged on the first connection after the restart only: when that attempt fails
+                    # (e.g. the acceptor still holds the old connection) its Logon is lost for real
+                    if ev > ev0 and d.get("35") == "2" and cid == old_cid + 1:
                         raise Violation("needless-resend-request", f"C09/resend-request-after-clean-restart/logout={with_logout}/from={label}",
                                         f"{label} sent ResendRequest(7={d.get('7')}) after a graceful restart at a quiescent point with "
                                         "nothing in flight and agreeing counters")
